@@ -402,50 +402,52 @@ func c19(p *an.Prog, r *an.R, tier string) {
 	if r.Anchor(sd != nil && tsF != nil, "search.(*DirectoryWatcher).scan / timestamps") {
 		r.Fn("search.(*DirectoryWatcher).scan")
 		found := 0
-		ast.Inspect(sd.Decl.Body, func(n ast.Node) bool {
-			is, ok := n.(*ast.IfStmt)
-			if !ok || is.Init == nil {
-				return true
-			}
-			as, ok := is.Init.(*ast.AssignStmt)
-			if !ok || len(as.Rhs) != 1 {
-				return true
-			}
-			ix, ok := ast.Unparen(as.Rhs[0]).(*ast.IndexExpr)
-			if !ok || !selField(info, ix.X, tsF) || len(as.Lhs) != 2 {
-				return true
-			}
-			found++
-			tObj := info.ObjectOf(as.Lhs[0].(*ast.Ident))
-			// the condition must contain `t != X` or `!t.Equal(X)`, and no After/Before on t
-			neq, ordering := false, false
-			ast.Inspect(is.Cond, func(m ast.Node) bool {
-				switch x := m.(type) {
-				case *ast.BinaryExpr:
-					if x.Op == token.NEQ && (an.UsesObj(info, x.X, tObj) || an.UsesObj(info, x.Y, tObj)) {
-						neq = true
-					}
-				case *ast.CallExpr:
-					if se, ok := ast.Unparen(x.Fun).(*ast.SelectorExpr); ok {
-						involves := an.UsesObj(info, se.X, tObj)
-						for _, a := range x.Args {
-							if an.UsesObj(info, a, tObj) {
-								involves = true
-							}
-						}
-						if involves && (se.Sel.Name == "After" || se.Sel.Name == "Before") {
-							ordering = true
-						}
-						if involves && se.Sel.Name == "Equal" {
+		for _, scd := range calleeDecls(p, sd) {
+			ast.Inspect(scd.Decl.Body, func(n ast.Node) bool {
+				is, ok := n.(*ast.IfStmt)
+				if !ok || is.Init == nil {
+					return true
+				}
+				as, ok := is.Init.(*ast.AssignStmt)
+				if !ok || len(as.Rhs) != 1 {
+					return true
+				}
+				ix, ok := ast.Unparen(as.Rhs[0]).(*ast.IndexExpr)
+				if !ok || !selField(info, ix.X, tsF) || len(as.Lhs) != 2 {
+					return true
+				}
+				found++
+				tObj := info.ObjectOf(as.Lhs[0].(*ast.Ident))
+				// the condition must contain `t != X` or `!t.Equal(X)`, and no After/Before on t
+				neq, ordering := false, false
+				ast.Inspect(is.Cond, func(m ast.Node) bool {
+					switch x := m.(type) {
+					case *ast.BinaryExpr:
+						if x.Op == token.NEQ && (an.UsesObj(info, x.X, tObj) || an.UsesObj(info, x.Y, tObj)) {
 							neq = true
 						}
+					case *ast.CallExpr:
+						if se, ok := ast.Unparen(x.Fun).(*ast.SelectorExpr); ok {
+							involves := an.UsesObj(info, se.X, tObj)
+							for _, a := range x.Args {
+								if an.UsesObj(info, a, tObj) {
+									involves = true
+								}
+							}
+							if involves && (se.Sel.Name == "After" || se.Sel.Name == "Before") {
+								ordering = true
+							}
+							if involves && se.Sel.Name == "Equal" {
+								neq = true
+							}
+						}
 					}
-				}
+					return true
+				})
+				r.Check(neq && !ordering, "C19.R5", "search.(*DirectoryWatcher).scan/reload-on-inequality", is.Pos(), "a shard is reloaded whenever its recorded timestamp differs from the current one", "the reload decision uses an ordering comparison on timestamps: a shard whose effective timestamp goes backwards (sidecar removed, older file renamed over it) is never reloaded, so the loaded set does not converge to disk")
 				return true
 			})
-			r.Check(neq && !ordering, "C19.R5", "search.(*DirectoryWatcher).scan/reload-on-inequality", is.Pos(), "a shard is reloaded whenever its recorded timestamp differs from the current one", "the reload decision uses an ordering comparison on timestamps: a shard whose effective timestamp goes backwards (sidecar removed, older file renamed over it) is never reloaded, so the loaded set does not converge to disk")
-			return true
-		})
+		}
 		r.Floor("C19.R5.reload-decisions", 1, found)
 	}
 }
